@@ -314,11 +314,14 @@ func (ec *EventSystemImpl) reloadConfig() {
 	ec.Lock()
 	ec.requestCapacity = getRequestCapacity()
 	ec.ringBufferCapacity = getRingBufferCapacity()
+	// every config update runs this on a goroutine of its own: use the values read under the lock
+	requestCapacity := ec.requestCapacity
+	ringBufferCapacity := ec.ringBufferCapacity
 	ec.Unlock()
 
 	// resize the ring buffer & event store with new capacity
-	ec.Store.SetStoreSize(ec.requestCapacity)
-	ec.eventBuffer.Resize(ec.ringBufferCapacity)
+	ec.Store.SetStoreSize(requestCapacity)
+	ec.eventBuffer.Resize(ringBufferCapacity)
 
 	if ec.isRestartNeeded() {
 		ec.Restart()
